@@ -337,7 +337,10 @@ func (c02) Run(c Case) Result {
 					pp.Dispose()
 				}
 			})
-			key := o & 8 // the result may legitimately depend on DecodeStreamsAsDatagrams only
+			// the result is a function of bytes, first layer and options: repeated decodes are compared per
+			// (DecodeStreamsAsDatagrams, Lazy); NoCopy and Pool must not change it (C04); lazy vs eager is C03's
+			// subject and legitimately differs on empty input
+			key := o & 9
 			same := 1
 			if prev, ok := in.sigs[key]; ok {
 				if prev != sig {
